@@ -75,10 +75,11 @@ def work(desc: dict) -> Optional[dict]:
         skip.append('spec')
     line = ptgen.request_line(desc.get('pid', 'c01'), pt, case, obs['grid'], skip)
     cm_full = {c: c for c in pt.defined_channels}
-    cm_full.update(case.get('cm') or {})
+    cm_full.update(ptgen.cm_dict(case))
     meta = {'kinds': ptgen.spec_kinds(case['spec']), 'depth': ptgen.spec_depth(case['spec']),
             'keep': ptgen.all_atoms_keep_channel(pt, cm_full),
-            'pf11': sorted(pf11_channels(pt, cm_full)),
+            'pf11': sorted(ptgen.chan_atom(c) for c in pf11_channels(pt, cm_full)),
+            'falsy_arith': sorted(ptgen.chan_atom(c) for c in falsy_arith_channels(pt, cm_full)),
             'drops': any(v is None for v in cm_full.values()) or _has_drop(case['spec'])}
     return {'case': ptgen.case_json(case), 'impl': obs['impl'], 'grid': obs['grid'], 'line': line, 'meta': meta,
             'family': desc['family'], 'label': desc.get('label', desc['family']),
@@ -127,6 +128,38 @@ def pf11_channels(pt, cm: Dict[str, Optional[str]], affected: frozenset = frozen
         return pf11_channels(pt._pulse_template, cm, affected | frozenset(touched))
     # atomic templates evaluate their wrappers through build_waveform: the parallel transformation is
     # applied to the inner waveform first there, so the defect does not occur below an atomic template
+    return set()
+
+
+def falsy_arith_channels(pt, cm: Dict[Any, Any]) -> set:
+    """Known-finding class PF-C01a: outer names of channels with a *falsy* outer id (the integer 0, the empty string)
+    that a scalar ArithmeticPulseTemplate's pulse operand defines.  `ArithmeticPulseTemplate._get_scalar_value` /
+    `_get_transformation` test `if channel_mapping[channel]` instead of `is not None`, so the scalar operation is
+    silently not applied to such a channel (program path and atomic `build_waveform` path alike)."""
+    import qupulse.pulses as qp
+    from qupulse.pulses.multi_channel_pulse_template import ParallelChannelPulseTemplate
+    from qupulse.pulses.arithmetic_pulse_template import ArithmeticPulseTemplate, ArithmeticAtomicPulseTemplate
+    from qupulse.pulses.time_reversal_pulse_template import TimeReversalPulseTemplate
+    t = type(pt)
+    if t is qp.MappingPT:
+        return falsy_arith_channels(pt.template, {i: (None if o is None else cm.get(o)) for i, o in pt.channel_mapping.items()})
+    if t is qp.SequencePT or t is qp.AtomicMultiChannelPT:
+        out = set()
+        for s in pt.subtemplates:
+            out |= falsy_arith_channels(s, cm)
+        return out
+    if t in (qp.RepetitionPT, qp.ForLoopPT):
+        return falsy_arith_channels(pt.body, cm)
+    if t is TimeReversalPulseTemplate:
+        return falsy_arith_channels(pt._inner, cm)
+    if t is ParallelChannelPulseTemplate:
+        return falsy_arith_channels(pt.template, cm)
+    if t is ArithmeticAtomicPulseTemplate:
+        return falsy_arith_channels(pt.lhs, cm) | falsy_arith_channels(pt.rhs, cm)
+    if t is ArithmeticPulseTemplate:
+        own = {cm.get(c) for c in pt._pulse_template.defined_channels}
+        own = {o for o in own if o is not None and not o}
+        return own | falsy_arith_channels(pt._pulse_template, cm)
     return set()
 
 
@@ -219,9 +252,13 @@ def judge(rec: dict, reply: dict, aspects) -> List[dict]:
                 adm = spec['adm'].get(ch)
                 if iv is None or adm is None:
                     continue
+                gm = impl.get('grid_modified')
+                hint = (' (all channels are sampled on one time array; sampling channel %s before had overwritten it: '
+                        'times[%d] was %s and is %s)' % (gm['channel'], gm['index'], gm['t'], gm['now'])) \
+                    if gm and gm['channel'] != ch else ''
                 if isinstance(iv, str):
                     v.append({'clause': 'sample-raises', 'channel': ch,
-                              'what': 'sampling channel %s of the program raises %s' % (ch, iv)})
+                              'what': 'sampling channel %s of the program raises %s%s' % (ch, iv, hint)})
                     continue
                 for t, a, ok in zip(grid, iv, adm):
                     if a == 'nan':
@@ -229,9 +266,31 @@ def judge(rec: dict, reply: dict, aspects) -> List[dict]:
                         break
                     if a not in ok:
                         v.append({'clause': 'value', 'channel': ch,
-                                  'what': 'sample on %s at t=%s is %s, the template denotes %s'
-                                          % (ch, t, a, ' or '.join(str(x) for x in ok) or 'nothing')})
+                                  'what': 'sample on %s at t=%s is %s, the template denotes %s%s'
+                                          % (ch, t, a, ' or '.join(str(x) for x in ok) or 'nothing', hint)})
                         break
+        # the voltages are played at the times the caller asked for: get_sampled must not change the caller's time
+        # array, and a channel sampled after other channels on the same array gets the same voltages as on a copy
+        gm = impl.get('grid_modified')
+        if gm:
+            v.append({'clause': 'grid-modified', 'channel': gm['channel'],
+                      'what': 'get_sampled(%s, times) of the program\'s waveform overwrote the caller\'s sample time array: '
+                              'times[%d] was %s and is %s afterwards (the voltages of the channels sampled next on the same '
+                              'array, and the time axis plotting.render returns, belong to other times)'
+                              % (gm['channel'], gm['index'], gm['t'], gm['now'])})
+        sg = impl.get('shared_grid')
+        if sg:
+            if sg.get('raises'):
+                what = ('played waveform #%d: sampling channel %s on the time array used for channel(s) %s before raises %s'
+                        % (sg['leaf'], sg['channel'], ','.join(sg['after']) or '-', sg['raises']))
+            elif sg.get('shared') is not None:
+                what = ('played waveform #%d: channel %s sampled on the time array used for channel(s) %s before is %s at '
+                        't=%s, on a private copy of the same times it is %s'
+                        % (sg['leaf'], sg['channel'], ','.join(sg['after']) or '-', sg['shared'], sg['t'], sg['private']))
+            else:
+                what = ('played waveform #%d: sampling channel %s overwrote the caller\'s sample time array (t=%s became %s)'
+                        % (sg['leaf'], sg['channel'], sg['t'], sg['time_now']))
+            v.append({'clause': 'shared-grid', 'channel': sg['channel'], 'what': what})
     if 'windows' in aspects:
         iw = impl.get('windows')
         if isinstance(iw, str):
@@ -399,7 +458,7 @@ class Checker:
     spec, classify known findings, shrink violating inputs, report."""
 
     def __init__(self, ctx: core.Ctx, pid: str, aspects, correspondence: str,
-                 want_samples=True, want_windows=True, tdur_exact=True, known_classes=None):
+                 want_samples=True, want_windows=True, tdur_exact=True, known_classes=None, unmodelled=()):
         self.ctx = ctx
         self.pid = pid
         self.aspects = tuple(aspects)
@@ -409,6 +468,10 @@ class Checker:
         self.tdur_exact = tdur_exact
         # finding id -> predicate(rec, violation) -> bool  (is this violation inside the recorded class?)
         self.known_classes = known_classes or {}
+        # open findings whose defective behaviour the Lean program-side model does NOT reproduce (the model plays what
+        # the template denotes there): inside the recorded class the model/implementation difference on the excused
+        # channel is the finding itself, not drift
+        self.unmodelled = set(unmodelled)
         self.open_ids = {k.get('finding') for k in ctx.findings.for_property(pid)}
 
     # -- descriptors -------------------------------------------------------------------------------
@@ -458,6 +521,11 @@ class Checker:
                 else:
                     rest.append(v)
             viols = rest
+            for fid, v in known:
+                # (a violation may lie in several recorded classes; it is attributed to the first one)
+                if v.get('channel') is not None and any(u in self.open_ids and u in self.known_classes
+                                                        and self.known_classes[u](rec, v) for u in self.unmodelled):
+                    diffs = [d for d in diffs if not d.startswith('samples on %s differ' % v['channel'])]
         if count:
             ctx.case(rec['line'], nontrivial=impl['status'] == 'ok' and len(rec['meta']['kinds']) > 1)
             ctx.count('family:' + rec['label'])
@@ -489,8 +557,13 @@ class Checker:
         return diffs, viols, known
 
     def summary(self, rec) -> str:
-        return 'kinds=%s params=%s cm=%s mm=%s' % ('/'.join(rec['meta']['kinds']), rec['case']['params'],
-                                                  rec['case']['cm'], rec['case']['mm'])
+        extra = ''
+        if rec['case'].get('ptypes'):
+            extra += ' parameter-types=%s' % rec['case']['ptypes']
+        if rec['case'].get('reuse'):
+            extra += ' mapping-dicts=caller-owned,re-used'
+        return 'kinds=%s params=%s cm=%s mm=%s%s' % ('/'.join(rec['meta']['kinds']), rec['case']['params'],
+                                                    rec['case']['cm'], rec['case']['mm'], extra)
 
     def report(self, rec, diffs, viols, known):
         ctx = self.ctx
